@@ -14,6 +14,11 @@ def esc(s):
     return '"' + s.replace('\\', '\\\\').replace('"', '\\"').replace('\n', '\\n').replace('\t', '\\t').replace('\r', '\\r') + '"'
 
 
+def esc_rawtab(s):
+    """like esc, but a TAB character of the string is written as it is (a literal may contain it)"""
+    return '"' + s.replace('\\', '\\\\').replace('"', '\\"').replace('\n', '\\n').replace('\r', '\\r') + '"'
+
+
 class Gen:
     def __init__(self, rng):
         self.rng = rng
@@ -23,12 +28,13 @@ class Gen:
         bits = bits or r.choice([1, 4, 8, 31, 64, 65, 128, 300])
         v = r.getrandbits(bits)
         base = r.choice(['dec', 'dec', 'hex', 'bin', 'neg', 'plus'])
+        pad = '0' * r.choice([0, 0, 0, 1, 2])       # leading zeros do not change a decimal numeral, signed or not
         if base == 'dec':
-            return str(v), v
+            return pad + str(v), v
         if base == 'neg':
-            return '-' + str(v), -v
+            return '-' + pad + str(v), -v
         if base == 'plus':
-            return '+' + str(v), v
+            return '+' + pad + str(v), v
         if base == 'hex':
             h = format(v, 'x')
             if r.random() < 0.5:
